@@ -374,6 +374,10 @@ func (ex *Exec) runDefers(i *ssa.RunDefers) {
 	if len(ex.defers) == 0 {
 		return
 	}
+	// a panic raised by a deferred call itself is not caught by the handler that is running (activeHandler)
+	saveIPE := ex.inPanicExit
+	ex.inPanicExit = true
+	defer func() { ex.inPanicExit = saveIPE }()
 	for k := len(ex.defers) - 1; k >= 0; k-- {
 		d := ex.defers[k]
 		// executed only if the defer statement was reached
